@@ -16,6 +16,10 @@ package main
 //	context's error, not nil, when the run context is done — as real ones do] [failwarm=1: the pool's warm-up gun cannot be created]
 //	failsched=<j> without perinst=1: the j-th call of NewRPSSchedule fails (j = 0: the shared schedule cannot be built, nothing may start)
 //	rps parts may also be unlim:MS (schedule.NewUnlimited) and composites
+//	round 4: [cfg=yaml: the pool is described as a pandora config FILE (YAML text in the documented form: `startup:` / `rps:` as a
+//	single `{type: …}` map or a list of them, `rps-per-instance:`), decoded by core/config.DecodeAndValidate with the plugin
+//	registrations of core/import — the startup schedule, the RPS factory, the pool id and rps-per-instance are then taken from the
+//	DECODED pool config; durations are written as 1500ms / 1.5s / 1s500ms, rates as ops: 2 / ops: 2.0 / ops: 0.5]
 //	<pool> || <pool> ...         several pools in ONE engine (cancel= is taken from the first); the observation is one
 //	                             observation per pool joined by " || "; a failing pool makes the engine cancel the run of the others
 //
@@ -52,10 +56,15 @@ import (
 	"verifharness/drv"
 	"verifharness/trec"
 
+	"github.com/spf13/afero"
 	"github.com/yandex/pandora/core"
+	"github.com/yandex/pandora/core/config"
 	"github.com/yandex/pandora/core/engine"
+	coreimport "github.com/yandex/pandora/core/import"
 	"github.com/yandex/pandora/core/provider"
+	"github.com/yandex/pandora/core/register"
 	"github.com/yandex/pandora/core/schedule"
+	yaml "gopkg.in/yaml.v2"
 	"go.uber.org/zap"
 	"go.uber.org/zap/zapcore"
 	"go.uber.org/zap/zaptest/observer"
@@ -393,6 +402,108 @@ func buildProfile(p string) core.Schedule {
 	return schedule.NewCompositeConf(schedule.CompositeConf{Nested: parts})
 }
 
+// ---------------------------------------------------------------- the pool as a config file (cfg=yaml)
+
+var importOnce sync.Once
+
+// yamlDur writes a duration of ms milliseconds in one of the spellings time.ParseDuration accepts (chosen by ms itself, so
+// that the text is a function of the input)
+func yamlDur(ms int64) string {
+	switch {
+	case ms%1000 == 0 && ms%3 == 0:
+		return fmt.Sprintf("%ds", ms/1000)
+	case ms >= 1000 && ms%1000 != 0 && ms%2 == 0:
+		return fmt.Sprintf("%ds%dms", ms/1000, ms%1000)
+	case ms%100 == 0 && ms%7 == 0:
+		return fmt.Sprintf("%d.%ds", ms/1000, (ms%1000)/100)
+	}
+	return fmt.Sprintf("%dms", ms)
+}
+
+// yamlPart: one part as a flow-style YAML map in the documented keys; a nested composite alternates between a plain nested
+// list and the explicit `{type: composite, nested: […]}`
+func yamlPart(seg string, depth int) string {
+	if strings.HasPrefix(seg, "[") && strings.HasSuffix(seg, "]") {
+		var ps []string
+		for _, q := range splitTop(seg[1 : len(seg)-1]) {
+			ps = append(ps, yamlPart(q, depth+1))
+		}
+		if depth%2 == 0 {
+			return "{type: composite, nested: [" + strings.Join(ps, ", ") + "]}"
+		}
+		return "[" + strings.Join(ps, ", ") + "]"
+	}
+	f := strings.Split(seg, ":")
+	n := func(i int) int64 {
+		v, err := strconv.ParseInt(f[i], 10, 64)
+		if err != nil {
+			panic("bad profile " + seg)
+		}
+		return v
+	}
+	switch {
+	case f[0] == "once" && len(f) == 2:
+		return fmt.Sprintf("{type: once, times: %d}", n(1))
+	case f[0] == "const" && len(f) == 3:
+		ops := fmt.Sprintf("%d", n(1))
+		if n(2)%200 == 0 {
+			ops += ".0"
+		}
+		return fmt.Sprintf("{type: const, duration: %s, ops: %s}", yamlDur(n(2)), ops)
+	case f[0] == "constm" && len(f) == 3:
+		return fmt.Sprintf("{type: const, ops: %s, duration: %s}", strconv.FormatFloat(float64(n(1))/1000, 'f', -1, 64), yamlDur(n(2)))
+	case f[0] == "unlim" && len(f) == 2:
+		return fmt.Sprintf("{type: unlimited, duration: %s}", yamlDur(n(1)))
+	case f[0] == "step" && len(f) == 5:
+		return fmt.Sprintf("{type: instance_step, from: %d, to: %d, step: %d, stepduration: %s}", n(1), n(2), n(3), yamlDur(n(4)))
+	}
+	panic("bad profile " + seg)
+}
+
+// yamlProfile: a profile of one part is written as the map itself (as in docs/eng/startup.md), of several as a list
+func yamlProfile(p string) string {
+	segs := splitTop(p)
+	if len(segs) == 1 && !strings.HasPrefix(segs[0], "[") {
+		return yamlPart(segs[0], 0)
+	}
+	var ps []string
+	for _, q := range segs {
+		ps = append(ps, yamlPart(q, 0))
+	}
+	return "[" + strings.Join(ps, ", ") + "]"
+}
+
+type c12StubGun struct{}
+
+func (c12StubGun) Bind(core.Aggregator, core.GunDeps) error { return nil }
+func (c12StubGun) Shoot(core.Ammo)                          {}
+
+// decodePool: the pool config decoded from YAML text the way cli.readConfig does it (map -> config.DecodeAndValidate ->
+// registered plugin factories; engine.Config is the `squash`ed part of cli.CliConfig)
+func decodePool(id string, m map[string]string) engine.InstancePoolConfig {
+	importOnce.Do(func() {
+		coreimport.Import(afero.NewMemMapFs())
+		register.Gun("c12stub", func() core.Gun { return c12StubGun{} })
+	})
+	text := fmt.Sprintf("pools:\n  - id: %s\n    gun: {type: c12stub}\n    ammo: {type: dummy}\n    result: {type: discard}\n", id)
+	if m["perinst"] == "1" {
+		text += "    rps-per-instance: true\n"
+	}
+	text += "    rps: " + yamlProfile(m["rps"]) + "\n    startup: " + yamlProfile(m["startup"]) + "\n"
+	mapCfg := map[string]any{}
+	if err := yaml.Unmarshal([]byte(text), &mapCfg); err != nil {
+		panic("yaml: " + err.Error() + " in " + text)
+	}
+	var conf engine.Config
+	if err := config.DecodeAndValidate(mapCfg, &conf); err != nil {
+		panic("config: " + err.Error() + " in " + text)
+	}
+	if len(conf.Pools) != 1 {
+		panic("config: want one pool")
+	}
+	return conf.Pools[0]
+}
+
 func joinInts(v []int64) string {
 	s := make([]string, len(v))
 	for i, x := range v {
@@ -427,10 +538,24 @@ type poolCase struct {
 
 func newPoolCase(id string, m map[string]string) *poolCase {
 	pc := &poolCase{id: id, m: m, r: &rec{cuts: map[string]int64{}, lastShot: -1, gunCtx: -1, shots: map[int64]int64{}}}
+	// where the schedules come from: the constructors called directly, or the decoded config file
+	mkStartup := func() core.Schedule { return buildProfile(m["startup"]) }
+	mkRps := func() (core.Schedule, error) { return buildProfile(m["rps"]), nil }
+	perinst := m["perinst"] == "1"
+	if m["cfg"] == "yaml" {
+		mkStartup = func() core.Schedule { return decodePool(id, m).StartupSchedule }
+		dec := decodePool(id, m)
+		mkRps = dec.NewRPSSchedule
+		perinst = dec.RPSPerInstance
+		pc.id = dec.ID
+	}
 	if strings.Contains(m["rps"], "unlim") {
 		pc.rpsTot = -1
 	} else {
-		rc := buildProfile(m["rps"])
+		rc, err := mkRps()
+		if err != nil {
+			panic("rps: " + err.Error())
+		}
 		rc.Start(time.Unix(1_700_000_000, 0))
 		for pc.rpsTot < 1000000 {
 			if _, ok := rc.Next(); !ok {
@@ -441,7 +566,7 @@ func newPoolCase(id string, m map[string]string) *poolCase {
 	}
 	// token offsets of the startup profile, from a drained copy
 	base := time.Unix(1_700_000_000, 0)
-	cp := buildProfile(m["startup"])
+	cp := mkStartup()
 	cp.Start(base)
 	for len(pc.ctoks) < 100000 {
 		ts, ok := cp.Next()
@@ -460,7 +585,6 @@ func newPoolCase(id string, m map[string]string) *poolCase {
 	failbind := atoiKV(m, "failbind", -1)
 	failsched := atoiKV(m, "failsched", -1)
 	gundelay := time.Duration(atoiKV(m, "gundelay", 0)) * time.Millisecond
-	perinst := m["perinst"] == "1"
 	closeErr := m["closeerr"] == "1"
 	failwarm := m["failwarm"] == "1"
 	panicID, panicAt := int64(-1), int64(0)
@@ -499,7 +623,7 @@ func newPoolCase(id string, m map[string]string) *poolCase {
 	var schedCalls int64
 	var gunMu sync.Mutex
 	pc.conf = engine.InstancePoolConfig{
-		ID:         id,
+		ID:         pc.id,
 		Provider:   &recProvider{Provider: prov, r: r},
 		Aggregator: nopAggr{errAfter: time.Duration(atoiKV(m, "aggrerr", 0)) * time.Millisecond, ctxErr: m["ctxerr"] == "1", r: r},
 		NewGun: func() (core.Gun, error) {
@@ -543,13 +667,17 @@ func newPoolCase(id string, m map[string]string) *poolCase {
 					return nil, errors.New("schedule cannot be created")
 				}
 			}
-			rs := &rpsSched{Schedule: buildProfile(m["rps"]), r: r, first: -1, fin: -1}
+			inner, err := mkRps()
+			if err != nil {
+				return nil, err
+			}
+			rs := &rpsSched{Schedule: inner, r: r, first: -1, fin: -1}
 			pc.rpsMu.Lock()
 			pc.rpss = append(pc.rpss, rs)
 			pc.rpsMu.Unlock()
 			return rs, nil
 		},
-		StartupSchedule: &startSched{Schedule: buildProfile(m["startup"]), r: r},
+		StartupSchedule: &startSched{Schedule: mkStartup(), r: r},
 	}
 	return pc
 }
@@ -1083,6 +1211,26 @@ func gen(r *rand.Rand, tier string) []string {
 		"startup=step:1:2:1:400 rps=const:0:200+const:10:100+unlim:500 perinst=1 ammo=0 resp=10",
 		"startup=const:2:1000 rps=once:1+[const:0:300+unlim:400]+const:0:200+once:1 ammo=0 resp=10 prov=mem",
 	)
+	out = append(out,
+		// the pool as a config FILE: the four examples of docs/eng/startup.md (durations scaled down), decoded by core/config with
+		// the registrations of core/import; nested lists, `rps-per-instance`, an unlimited part, a fractional rate
+		"startup=once:10 rps=const:20:600 ammo=0 resp=0 cfg=yaml",
+		"startup=const:5:2000 rps=const:10:3000 ammo=0 resp=0 cfg=yaml",
+		"startup=step:10:100:10:100 rps=const:200:1500 ammo=0 resp=0 cfg=yaml",
+		"startup=once:10+const:0:1000+once:10 rps=const:20:2000 ammo=0 resp=0 cfg=yaml",
+		"startup=[once:1+const:0:500]+[once:1+[const:0:500+once:2]]+step:0:2:1:300 rps=const:10:500+const:0:200+unlim:300 perinst=1 ammo=0 resp=10 cfg=yaml",
+		"startup=constm:2500:1000+step:1:3:2:700 rps=[const:10:1200+once:2]+const:0:300+once:1 ammo=0 resp=0 cfg=yaml || startup=const:1:2000 rps=const:10:2600 ammo=12 resp=0 cfg=yaml",
+	)
+	// every fourth generated pool is described as a config file
+	asFile := func(in string) string {
+		segs := strings.Split(in, " || ")
+		for i := range segs {
+			if r.Intn(4) == 0 {
+				segs[i] += " cfg=yaml"
+			}
+		}
+		return strings.Join(segs, " || ")
+	}
 	n, nfree, npools, nunk := 14, 6, 2, 4
 	if tier == "thorough" {
 		n, nfree, npools, nunk = 1000, 800, 150, 150
@@ -1111,16 +1259,16 @@ func gen(r *rand.Rand, tier string) []string {
 		if r.Intn(3) == 0 {
 			su = nest(r, su, 1+r.Intn(2))
 		}
-		out = append(out, withCause(r, su, r.Intn(nCauses), cutAt))
+		out = append(out, asFile(withCause(r, su, r.Intn(nCauses), cutAt)))
 	}
 	for i := 0; i < npools; i++ {
-		out = append(out, genPools(r))
+		out = append(out, asFile(genPools(r)))
 	}
 	for i := 0; i < nfree; i++ {
-		out = append(out, withCause(r, genStartupFree(r), r.Intn(nCauses), 100*(1+r.Intn(40))))
+		out = append(out, asFile(withCause(r, genStartupFree(r), r.Intn(nCauses), 100*(1+r.Intn(40)))))
 	}
 	for i := 0; i < nunk; i++ {
-		out = append(out, withUnknownRps(r))
+		out = append(out, asFile(withUnknownRps(r)))
 	}
 	return out
 }
